@@ -1,9 +1,13 @@
 #!/bin/sh
-# Offline build of the Coq development (full .vo build) and numba cache warm-up.
+# Offline build of the whole Coq development (full .vo build, no -vos).
 set -e
 HERE="$(cd "$(dirname "$0")" && pwd)"
-cd "$HERE/coq"
-coq_makefile -f _CoqProject -o Makefile
-timeout 3000 make -j16
 mkdir -p "$HERE/coq/Gen" "$HERE/.cache" "$HERE/replays" "$HERE/evidence"
+cd "$HERE"
+PYTHONPATH="$HERE/harness" /venv/bin/python -c "
+from pv import coq
+ok, out = coq.ensure_built()
+print(out[-3000:])
+raise SystemExit(0 if ok else 1)
+"
 echo "setup ok"
